@@ -32,7 +32,8 @@ RULE = ("constructor maps + history of 4-22 operations on one Workflow: add (9 n
         "unknown keys, None), value and channel assignment through wf.inputs[...], run with/without keyword "
         "arguments in the spellings wf.run(**kw) / wf(**kw) / wf.set_input_values(**kw) (cyclic graphs included), values "
         "typed int/bool/float and half of the time == to the held value but of another type, a child leaving by "
-        "node.parent = None / = another workflow, re-adding a REMOVED node object (same or new label), relabelling a "
+        "node.parent = None / = another workflow, pulling ONE child (child.pull() / child(), only on acyclic data with "
+        "readable panels; child labels ending in a digit get a node whose id contains that digit), re-adding a REMOVED node object (same or new label), relabelling a "
         "current child by add_child(child, label=new), replace_child by a fresh or a previously removed node of the "
         "same kind (only where the replaced child is unconnected and no connected channel is exposed), IN-PLACE edits "
         "of the map object handed out by wf.inputs_map / wf.outputs_map (item assignment incl. names already used by "
@@ -104,8 +105,8 @@ KINDS = [K0Inc, K1Lin, K2Na, K3Nb, K4Src, K5Mix, K6Same, K7Und, K8Bb]
 KIN = [["x"], ["x", "y"], ["b__c"], ["c"], [], ["a__b", "c"], ["x"], ["_b"], ["b"]]
 KOUT = [["y"], ["s", "d"], ["c"], ["b__c"], ["y"], ["c", "a__b"], ["x"], ["y"], ["_y"]]
 
-PLAIN_LABELS = ["a", "b", "c", "n", "m"]
-TRICKY_LABELS = ["a", "a__b", "a_", "b", "b__c", "a__b__c"]
+PLAIN_LABELS = ["a", "b", "c", "n", "m", "n0", "step8"]
+TRICKY_LABELS = ["a", "a__b", "a_", "b", "b__c", "a__b__c", "a1"]
 NAMES = ["p", "q", "r", "x", "in1", "out", "a__x", "b__y"]
 
 
@@ -297,7 +298,7 @@ def gen_case(rng, n_ops, tricky):
         if len(sim.kids) < 2 and not wild and rng.random() < 0.8:
             k = "add"
         else:
-            k = rng.choice(["add"] * 4 + ["rm"] * 2 + ["orphan", "move"] + ["setin"] * 2 + ["con"] * 5 + ["dis", "disall"] + ["map"] * 6 + ["set"] * 3
+            k = rng.choice(["add"] * 4 + ["rm"] * 2 + ["orphan", "move"] + ["setin"] * 2 + ["pull"] * 3 + ["con"] * 5 + ["dis", "disall"] + ["map"] * 6 + ["set"] * 3
                            + ["wcon"] + ["run"] * 4 + ["readd"] * 3 + ["relabel"] * 2 + ["replace"] * 2
                            + ["mset"] * 5 + ["mdel"] + ["mupd"] * 2)
             if k in ("mset", "mdel", "mupd") and not wild:
@@ -307,7 +308,7 @@ def gen_case(rng, n_ops, tricky):
                     sim.maps[d0] = []
             if k == "readd" and not sim.shelf and not wild:
                 k = "rm" if len(sim.kids) > 2 else "add"
-            if k in ("relabel", "replace") and not sim.kids:
+            if k in ("relabel", "replace", "pull") and not sim.kids:
                 k = "add"
         if k == "add":
             free = [l for l in labels if l not in sim.labels()]
@@ -324,6 +325,10 @@ def gen_case(rng, n_ops, tricky):
                 sim.shelf.insert(0, [x for x in sim.kids if x[0] == lab][0])
                 sim.kids = [x for x in sim.kids if x[0] != lab]
                 sim.conns = [x for x in sim.conns if lab not in (x[0], x[2])]
+        elif k == "pull":
+            fed = [t[0] for t in sim.conns]                      # children with something upstream
+            lab = rng.choice(labels) if wild else rng.choice(fed * 2 + sim.labels())
+            ops.append(["pull", lab, rng.random() < 0.3])
         elif k == "readd":
             sl = rng.choice(labels + ["spare"]) if wild or not sim.shelf else rng.choice(sim.shelf)[0]
             free = [l for l in labels if l not in sim.labels()]
@@ -530,6 +535,23 @@ def run_impl(case):
     kind_of = {}             # id(node object) -> kind
 
     other = []               # a second workflow, for node.parent = other_workflow
+    junk = []
+
+    def data_cyclic():
+        kids = list(wf.children.values())
+        up = {id(n): [c.owner for ch in n.inputs for c in ch.connections] for n in kids}
+        state = {}
+
+        def visit(n):
+            if state.get(id(n)) == 1:
+                return True
+            if state.get(id(n)) == 2 or id(n) not in up:
+                return False
+            state[id(n)] = 1
+            r = any(visit(m) for m in up[id(n)])
+            state[id(n)] = 2
+            return r
+        return any(visit(n) for n in kids)
 
     def register(node, kind):
         kind_of[id(node)] = kind
@@ -598,6 +620,14 @@ def run_impl(case):
         k = op[0]
         if k == "add":
             node = KINDS[op[1]](label=op[2])
+            if op[2][-1:].isdigit():
+                # make the node's id contain the label's last digit (label-restoring code that strips
+                # id digits then has something to strip): try other objects, keeping the rejected ones alive
+                for _ in range(40):
+                    if op[2][-1] in str(id(node)):
+                        break
+                    junk.append(node)
+                    node = KINDS[op[1]](label=op[2])
             wf.add_child(node)
             register(node, op[1])
         elif k == "rm":
@@ -615,6 +645,27 @@ def run_impl(case):
                     other[0].remove_child(node.label)
                 node.parent = other[0]
             shelf.insert(0, node)
+        elif k == "pull":            # run one child's upstream data tree, then the child
+            if op[1] not in wf.children:
+                return "noref"
+            try:
+                list(wf.inputs), list(wf.outputs)
+            except TypeError:
+                return "skip"
+            if data_cyclic():
+                return "skip"
+            if op[2] and any(len(ch.connections) > 0 for ch in wf.inputs):
+                # child() first pulls the workflow itself; with a connected channel exposed by the map the
+                # workflow's own data tree reaches into its children and topology refuses it (ValueError)
+                return "skip"
+            node = wf.children[op[1]]
+            try:
+                node() if op[2] else node.pull()
+            except Exception:
+                wf.failed, wf.running = False, False
+                for n in wf.children.values():
+                    n.failed, n.running = False, False
+                raise
         elif k == "setin":
             wf.set_input_values(**{a: tval(b) for a, b in op[1]})
         elif k == "readd":           # the SAME node object comes back, possibly under another label
@@ -741,6 +792,8 @@ def op_coq(op):
         return "ORun " + cl(f"({cs(a)}, {cz(encz(b))})" for a, b in op[1])
     if k == "setin":
         return "OSetInputs " + cl(f"({cs(a)}, {cz(encz(b))})" for a, b in op[1])
+    if k == "pull":
+        return f"OPull {cs(op[1])} {'true' if op[2] else 'false'}"
     if k == "orphan":
         return f"OOrphan {cs(op[1])}"
     if k == "move":
@@ -818,6 +871,7 @@ def failures(case, obs):
         return [(0, "bijective", "the constructor accepted a map sending two keys to one name")]
     want_maps = [("nomap" if case["im"] is None else case["im"]), ("nomap" if case["om"] is None else case["om"])]
     prev = None
+    prev_panels = None
     for step, rec in enumerate(obs):
         res, snap, pin, pout = rec
         op = case["ops"][step - 1] if step > 0 else ["ctor"]
@@ -917,6 +971,13 @@ def failures(case, obs):
                                                 f"holds {after.get(tgt)}, changed channels {sorted(changed)}"))
             elif res == "ok" or after != before:
                 out.append((step, "assign", f"assignment to the absent key {op[1]!r} gave {res}"))
+        if op[0] == "pull" and res not in ("noref", "skip"):
+            # pulling a child leaves the workflow's IO exactly as it was
+            if res != "ok":
+                out.append((step, "pull", f"pulling child {op[1]!r} raised {res}"))
+            elif [pin, pout] != prev_panels:
+                out.append((step, "pull", f"pulling child {op[1]!r} changed the workflow IO from {prev_panels} to "
+                                          f"{[pin, pout]}"))
         if op[0] == "setin" and pre_in is not None:
             before, after = _vals(prev), _vals(snap)
             unknown = [k for k, _ in op[1] if k not in pre_in]
@@ -964,6 +1025,7 @@ def failures(case, obs):
                     if con and not con[0] and vals.get(c) != rval(z):
                         out.append((step, "run", f"keyword {k}={z} did not reach the child channel {c} ({vals.get(c)})"))
         prev = snap
+        prev_panels = [pin, pout]
     return out
 
 
